@@ -10,6 +10,7 @@ import sys, os, subprocess, json, shutil, time, argparse, glob, re
 
 ap = argparse.ArgumentParser()
 ap.add_argument('seed'); ap.add_argument('pid'); ap.add_argument('--name'); ap.add_argument('--tier', default='quick'); ap.add_argument('--no-ctest', action='store_true')
+ap.add_argument('--cmake-args', default='', help='extra cmake arguments for the demo builds (e.g. -DPLIBSYS_RWLOCK_MODEL=general); a baseline build of /repo with the same arguments is made for the without-change run')
 ap.add_argument('--only-check', action='store_true', help='skip demo/ctest confirmation (already recorded), just run the check')
 a = ap.parse_args()
 name = a.name or a.pid + '-' + os.path.basename(a.seed.rstrip('/'))
@@ -36,12 +37,18 @@ try:
             if os.path.isfile(f) and not f.endswith('.log'):
                 shutil.copy(f, out)
         meta.update(property=a.pid, repo_head=subprocess.check_output('git -C /repo rev-parse --short HEAD', shell=True, text=True).strip())
-        rc, o = sh('cmake -G Ninja -S %s -B %s/_b -DCMAKE_BUILD_TYPE=RelWithDebInfo >/dev/null && cmake --build %s/_b 2>&1 | tail -3' % (wt, wt, wt))
+        rc, o = sh('cmake -G Ninja -S %s -B %s/_b -DCMAKE_BUILD_TYPE=RelWithDebInfo %s >/dev/null && cmake --build %s/_b 2>&1 | tail -3' % (wt, wt, a.cmake_args, wt))
+        base_build, base_src = '/repo/_build', '/repo'
+        if a.cmake_args:
+            base_build = wt + '_base_b'
+            sh('cmake -G Ninja -S /repo -B %s -DCMAKE_BUILD_TYPE=RelWithDebInfo %s >/dev/null && cmake --build %s 2>&1 | tail -3' % (base_build, a.cmake_args, base_build))
+            meta['cmake_args'] = a.cmake_args
         meta['builds'] = rc == 0
         runner = os.path.join(out, 'build_and_run.sh')
         if os.path.exists(runner):
             rc1, o1 = sh('bash %s %s/_b %s' % (runner, wt, wt), cwd=out)
-            rc2, o2 = sh('bash %s /repo/_build /repo' % runner, cwd=out)
+            rc2, o2 = sh('bash %s %s %s' % (runner, base_build, base_src), cwd=out)
+            if a.cmake_args: shutil.rmtree(base_build, ignore_errors=True)
             meta['demo_with_change_exit'] = rc1; meta['demo_without_change_exit'] = rc2
             meta['demo_with_change_tail'] = o1[-300:]; meta['demo_without_change_tail'] = o2[-200:]
         if not a.no_ctest:
